@@ -113,6 +113,9 @@ def slices(prop, tier, seed):
         S.append(("S-time", W.s_time({"EDF": gp["EDF"]} if not th else gp, seed,
                                      max_n=2 if not th else 3)))
         S += adv(seed, th)
+        S.append(("S-adv-cond", W.s_adv_cond(seed, bound=1 if not th else 2,
+                                             templates=None if th else
+                                             ("if2", "seq", "side"))))
         if th:
             S.append(("S-closed", W.s_closed(g, seed)))
     elif prop == "C03":
@@ -123,6 +126,7 @@ def slices(prop, tier, seed):
         S.append(("S-var", W.s_var(gp, seed, max_n=3)))
         S.append(("S-plan", W.s_plan(pp if th else pp_small, seed,
                                      max_n=3 if th else 2, with_cond=th)))
+        S.append(("S-plan-ms", W.s_plan_ms(pp if th else pp_small, seed)))
         S += adv(seed, th)
         if th:
             S.append(("S-res", W.s_res(gp, seed, full=True)))
@@ -147,6 +151,16 @@ def slices(prop, tier, seed):
                                      max_n=3 if th else 2)))
         S.append(("S-closed", W.s_closed(g, seed)))
         S += adv(seed, th, cancel=True)
+        # four tasks, at least two sinks, whole graphs released: one sink is cancelled
+        # while tasks elsewhere in the graph are booked ahead of their parents
+        S.append(("S-adv4", W.s_adv(
+            seed, min_n=4, max_n=4, bound=3, cap=6000, cancel=True, delays=(0, 2),
+            clusters=("1x2",), releases=("one",), shape_filter=W.two_sinks,
+            modes={"rtg": {"rtg": True}} if not th else
+            {"rtg": {"rtg": True}, "rtg+retract": {"rtg": True, "retract": True}})))
+        S.append(("S-adv-cond", W.s_adv_cond(seed, bound=1 if not th else 2, cancel=True,
+                                             templates=None if th else
+                                             ("if2", "nested", "side"))))
     elif prop == "C07":
         if th:
             S.append(("S-cond", W.s_cond(g, seed, clusters=("1x1", "1x2", "2w", "2p"),
@@ -164,6 +178,7 @@ def slices(prop, tier, seed):
         S.append(("S-cond-plan", W.s_cond(bp, seed, resolve_modes=(False, True),
                                           clusters=("1x2",), releases=("one",),
                                           runtimes=(1,))))
+        S.append(("S-adv-cond", W.s_adv_cond(seed, bound=1 if not th else 2)))
     elif prop == "C08":
         S += dag(g, g3, seed, th)
         S.append(("S-cond", W.s_cond(g3, seed, clusters=("1x1", "1x2"),
@@ -192,6 +207,7 @@ def slices(prop, tier, seed):
             S.append(("S-closed", W.s_closed(g, seed)))
     elif prop == "C15":
         S.append(("S-cw", W.s_cw(seed, k_max=3, full=th)))
+        S.append(("S-cw-hetero", W.s_cw_hetero(seed, k_max=3, full=th)))
         if th:
             S.append(("S-cw4", (w for w in W.s_cw(seed, k_max=4, full=False)
                                 if " k=4 " in w["tag"] and "load=preload" in w["tag"])))
@@ -200,6 +216,8 @@ def slices(prop, tier, seed):
         S.append(("S-plan", W.s_plan(enf if th else {k: enf[k] for k in pp_small},
                                      seed, max_n=3 if th else 2,
                                      slacks=((0, 0), (50, 50), (100, 100)))))
+        S.append(("S-plan-ms", W.s_plan_ms(enf if th else {k: enf[k] for k in pp_small},
+                                           seed)))
         S.append(("S-cw", W.s_cw(seed, k_max=3 if th else 2, full=th)))
     elif prop == "C19":
         S.append(("S-closed", W.s_closed(g, seed)))
